@@ -53,7 +53,7 @@ type c16Keys struct {
 	nodePub   []byte // PEM
 	foreign   *rsa.PrivateKey
 	client    *rsa.PrivateKey
-	clientPub string // PEM
+	clientPub string                       // PEM
 	ec        map[string]*ecdsa.PrivateKey // by JWT alg name
 	ed        ed25519.PrivateKey
 }
